@@ -104,87 +104,133 @@ def check_r04a(repo, rep):
 
 
 def check_r04b(repo, rep):
+    """R04b by abstract evaluation of the callable Lambda.convert returns,
+    for the four (method, with_context) kinds of lambda: which receiver and
+    which context reach the evaluation, and which arguments are left."""
+    from sa import absint
+    import itertools
     mod = repo.module(YT)
     conv = mod.func('Lambda.convert')
-    fn = mod.functions.get('Lambda.convert.func')
-    if fn is None:
-        raise AnalysisError('anchor vanished: Lambda.convert.func')
-    cparam = 'context'
-    if cparam not in conv.params():
+    lam = mod.cls('Lambda')
+    returned = {r.value.id for r in model.walk_shallow(conv.node)
+                if isinstance(r, ast.Return) and isinstance(
+                    r.value, ast.Name)}
+    fns = [f for f in mod.functions.values()
+           if f.parent_func is conv and f.name in returned]
+    if len(fns) != 1:
+        raise AnalysisError('anchor vanished: the callable returned by '
+                            'Lambda.convert')
+    fn = fns[0]
+    if 'context' not in conv.params():
         raise AnalysisError('Lambda.convert lost its context parameter')
-    # every assignment of the context handed to _call
-    calls = [c for c in model.calls_in(fn.node, shallow=True)
-             if isinstance(c.func, ast.Attribute) and c.func.attr == '_call']
-    rep.ob('R04b', fn.key + '/calls-_call', len(calls) == 1 and len(
-        calls[0].args) >= 3 and isinstance(calls[0].args[2], ast.Name),
-        'the lambda callable must evaluate through self._call(value, '
-        'receiver, <context>, ...)', loc=mod.loc(fn.node))
-    if not calls or len(calls[0].args) < 3 or not isinstance(
-            calls[0].args[2], ast.Name):
-        return
-    cname = calls[0].args[2].id
-    g = cfgmod.CFG(fn.node)
+    callm = lam.methods.get('_call')
+    if callm is None:
+        raise AnalysisError('anchor vanished: Lambda._call')
     n = 0
-    for wc in (False, True):
-        reach = reachable_with(g, {})
-        for nd in g.nodes:
-            if nd.kind != 'stmt' or not isinstance(nd.ast, ast.Assign):
-                continue
-            tgt = nd.ast.targets[0]
-            val = nd.ast.value
-            value = None
-            if isinstance(tgt, ast.Name) and tgt.id == cname:
-                value = val
-            elif isinstance(tgt, ast.Tuple) and isinstance(val, ast.Tuple):
-                for t, v in zip(tgt.elts, val.elts):
-                    if isinstance(t, ast.Name) and t.id == cname:
-                        value = v
-            elif isinstance(tgt, ast.Tuple) and any(
-                    isinstance(t, ast.Name) and t.id == cname
-                    for t in tgt.elts):
-                value = val        # new_receiver, new_context = args[:2]
-            if value is None:
-                continue
-            # under which with_context value is this assignment reachable?
-            conds = []
-            p = nd.ast
-            while p is not None and p is not fn.node:
-                par = getattr(p, '_parent', None)
-                if isinstance(par, ast.If):
-                    in_body = any(p is s for s in par.body)
-                    conds.append((par.test, in_body))
-                p = par
+    for method, with_ctx in itertools.product((False, True), repeat=2):
+        A = [absint.Sym('arg%d' % i) for i in range(3)]
+        seen = []
+        children = []
 
-            def holds(env):
-                for test, pos in conds:
-                    # elif chains: the negations of earlier tests are
-                    # implied by nesting in orelse
-                    v = tri_attr(test, env)
-                    if v is None:
-                        continue
-                    if v != pos:
-                        return False
-                return True
-            if wc is False and holds({'with_context': False}):
-                n += 1
-                ok = child_of(value, cparam)
-                rep.ob('R04b', fn.key + '/lexical-scope', ok,
-                       'when the lambda is not given an explicit context '
-                       'it must evaluate in a child of the context it was '
-                       'created in (%s.create_child_context()); this branch '
-                       'uses %s: `$`/named arguments would be published '
-                       'into, and free variables resolved in, the wrong '
-                       'scope' % (cparam, model.norm(value)),
-                       loc=mod.loc(nd.ast), construct=model.norm(nd.ast))
-            if wc is True and holds({'with_context': True}) and \
-                    not holds({'with_context': False}):
-                n += 1
-                ok = 'args' in model.names_loaded(value) or child_of(
-                    value, cparam)
-                rep.ob('R04b', fn.key + '/explicit-context', ok,
-                       'with with_context the context is the caller\'s '
-                       'explicit first argument', loc=mod.loc(nd.ast))
-    rep.floor('lambda context branches', n, 4)
+        def oracle(callee, args, kwargs):
+            if callee == callm.key:
+                seen.append(list(args))
+                return (absint.Sym('result'),)
+            if callee == '.create_child_context':
+                c = absint.Sym('child-of-%r' % (args[0],))
+                children.append((args[0], c))
+                return (c,)
+            return None
+        defctx = absint.Sym('definition-context')
+        slf = absint.Obj('lambda-type', method=method,
+                         with_context=with_ctx, __class__=lam)
+        expr = absint.Sym('expression')
+
+        def oracle2(callee, args, kwargs, _o=oracle):
+            if callee == 'builtins.super':
+                return (absint.Sym('super'),)
+            if callee == '.convert':
+                return (None,)
+            if callee == 'builtins.callable':
+                return (False,)
+            if callee == 'builtins.hasattr':
+                return (False,)
+            return _o(callee, args, kwargs)
+        it = absint.Interp(repo, mod, oracle2)
+        try:
+            # build the callable the way Lambda.convert does (so that what
+            # it closes over is there), then invoke it twice
+            cargs = {'self': slf, 'value': expr,
+                     'receiver': absint.Sym('receiver-at-conversion'),
+                     'context': defctx,
+                     'function_spec': absint.Sym('spec'),
+                     'engine': absint.Sym('engine')}
+            built = it.run(conv.node, {q: cargs.get(q, absint.Sym(q))
+                                       for q in conv.params()})
+            if built[0] != 'return' or not isinstance(built[1],
+                                                      absint.Closure):
+                raise absint.Unsupported('Lambda.convert did not return a '
+                                         'local function')
+            clo = built[1]
+            out = it.apply(clo.node, clo.env, list(A), {})
+            first_children = list(children)
+            out2 = it.apply(clo.node, clo.env, list(A), {})
+        except absint.Unsupported as e:
+            raise AnalysisError('R04b: the lambda callable uses a construct '
+                                'outside the modelled fragment (%s)' % e)
+        except absint._Raise as e:
+            raise AnalysisError('R04b: the lambda callable raises %s on '
+                                'three arguments' % e.v)
+        n += 1
+        kind = '%s%s' % ('method ' if method else 'plain ',
+                         'with_context' if with_ctx else 'lambda')
+        site = '%s/%s' % (fn.key, kind.replace(' ', '-'))
+        if len(seen) != 2 or len(seen[0]) < 6:
+            rep.ob('R04b', site, False,
+                   'a %s must evaluate through self._call(value, receiver, '
+                   '<context>, engine, args, kwargs) exactly once per '
+                   'invocation (calls seen in two invocations: %d)' % (
+                       kind, len(seen)), loc=mod.loc(fn.node))
+            continue
+        _, recv, ctx, _, rest, _ = seen[0][:6]
+        ctx2 = seen[1][2]
+        if not with_ctx:
+            rep.ob('R04b', site + '/fresh-scope-per-invocation',
+                   ctx2 is not ctx and any(
+                       c is ctx2 and parent is defctx
+                       for parent, c in children[len(first_children):]),
+                   'every invocation of a %s must get its own new child '
+                   'context; the second invocation evaluates in %r (the '
+                   'first in %r): the arguments of one invocation stay '
+                   'visible to / are overwritten by the next' % (
+                       kind, ctx2, ctx), loc=mod.loc(fn.node))
+        k = (1 if method else 0) + (1 if with_ctx else 0)
+        want_rest = A[k:]
+        want_recv = A[0] if method else None
+        if with_ctx:
+            want_ctx = A[1] if method else A[0]
+            ctx_ok = ctx is want_ctx
+            ctx_why = 'the caller\'s explicit context argument'
+        else:
+            ctx_ok = any(c is ctx and parent is defctx
+                         for parent, c in children)
+            ctx_why = 'a new child of the context the lambda was created ' \
+                      'in (context.create_child_context())'
+        recv_ok = recv is want_recv if method else (
+            isinstance(recv, tuple) and str(recv[-1]).endswith('NO_VALUE'))
+        rest_ok = list(rest) == want_rest
+        rep.ob('R04b', site + '/context', ctx_ok,
+               'a %s must evaluate in %s; it evaluates in %r: `$`/named '
+               'arguments would be published into, and free variables '
+               'resolved in, the wrong scope' % (kind, ctx_why, ctx),
+               loc=mod.loc(fn.node))
+        rep.ob('R04b', site + '/receiver-and-arguments',
+               recv_ok and rest_ok,
+               'a %s must pass receiver %s and the remaining arguments %r; '
+               'it passes %r and %r' % (
+                   kind, want_recv if method else 'NO_VALUE', want_rest,
+                   recv, list(rest)), loc=mod.loc(fn.node))
+    rep.floor('lambda kinds evaluated', n, 4)
 
 
 def tri_attr(test, env):
